@@ -71,13 +71,22 @@ var c16Ops = []c16Op{
 		func(s *c16Ref) bool { s.Set, s.Cleared = c16Set(c16B), false; return true }},
 	{"Incr(new e)", func(gp *engine.GenginePool) error {
 		return gp.UpdatePooledRulesIncremental(c16Text([]c16Rule{{"e", 2, "e-i1"}}))
-	}, func(s *c16Ref) bool { s.Set, s.Cleared = ref.Merge(s.Set, c16Set([]c16Rule{{"e", 2, "e-i1"}})), false; return true }},
+	}, func(s *c16Ref) bool {
+		s.Set, s.Cleared = ref.Merge(s.Set, c16Set([]c16Rule{{"e", 2, "e-i1"}})), false
+		return true
+	}},
 	{"Incr(a same salience)", func(gp *engine.GenginePool) error {
 		return gp.UpdatePooledRulesIncremental(c16Text([]c16Rule{{"a", 3, "a-i2"}}))
-	}, func(s *c16Ref) bool { s.Set, s.Cleared = ref.Merge(s.Set, c16Set([]c16Rule{{"a", 3, "a-i2"}})), false; return true }},
+	}, func(s *c16Ref) bool {
+		s.Set, s.Cleared = ref.Merge(s.Set, c16Set([]c16Rule{{"a", 3, "a-i2"}})), false
+		return true
+	}},
 	{"Incr(b new salience)", func(gp *engine.GenginePool) error {
 		return gp.UpdatePooledRulesIncremental(c16Text([]c16Rule{{"b", 9, "b-i3"}}))
-	}, func(s *c16Ref) bool { s.Set, s.Cleared = ref.Merge(s.Set, c16Set([]c16Rule{{"b", 9, "b-i3"}})), false; return true }},
+	}, func(s *c16Ref) bool {
+		s.Set, s.Cleared = ref.Merge(s.Set, c16Set([]c16Rule{{"b", 9, "b-i3"}})), false
+		return true
+	}},
 	{"Remove(a)", func(gp *engine.GenginePool) error { return gp.RemoveRules([]string{"a"}) },
 		func(s *c16Ref) bool { s.Set = ref.Remove(s.Set, []string{"a"}); return true }},
 	{"Remove(zz)", func(gp *engine.GenginePool) error { return gp.RemoveRules([]string{"zz"}) },
@@ -96,12 +105,12 @@ var c16Ops = []c16Op{
 // ---- probing a pool state ----
 
 type c16Probe struct {
-	open     bool
-	blocked  map[string]bool // client thread path -> blocked at the gate
-	events   map[string][]string
-	results  []map[string]interface{}
-	errs     []error
-	pans     []interface{}
+	open    bool
+	blocked map[string]bool // client thread path -> blocked at the gate
+	events  map[string][]string
+	results []map[string]interface{}
+	errs    []error
+	pans    []interface{}
 }
 
 var c16Active *c16Probe
